@@ -87,7 +87,8 @@ Inductive out := OFwd (x : addr) | ODrop | ODialFail | OReply (x : addr) | ONone
 Record obs := mkObs { o_out : out; o_dialed : option addr; o_consulted : bool; o_evicted : option addr }.
 
 (* udp.go:145-175 initConn with the manager's dialFunc (udp.go:316-328): Hook, then UDP(actual);
-   on success the override bookkeeping of lines 166-170 and the cache seed of lines 108-110.
+   on success the override bookkeeping of lines 166-170 and the cache seed of lines 108-110
+   (`e.OriginalAddr == ""` is the "no override" test since the fix bbf8060).
    Second component: the address UDP() was called with, if it was called. *)
 Definition dial (a : addr) (fault : bool) : option sess * option addr :=
   match hook a with
@@ -98,13 +99,13 @@ Definition dial (a : addr) (fault : bool) : option sess * option addr :=
       then
         let ov := if aeqb a actual then empty else actual in
         let orig := if aeqb a actual then empty else a in
-        (Some (mkSess ov orig (if aeqb ov empty then [(a, true)] else [])), Some actual)
+        (Some (mkSess ov orig (if aeqb orig empty then [(a, true)] else [])), Some actual)
       else (None, Some actual)
   end.
 
 (* udp.go:113-120 *)
-Definition tail (s : sess) (a ev : addr) (dialed : option addr) : state * obs :=
-  if negb (aeqb (s_ov s) empty)
+Definition feed_tail (s : sess) (a ev : addr) (dialed : option addr) : state * obs :=
+  if negb (aeqb (s_orig s) empty)
   then (Some s, mkObs (OFwd (s_ov s)) dialed false None)
   else
     let r := checkAddr (s_cache s) a ev in
@@ -115,10 +116,10 @@ Definition step (st : state) (i : input) : state * obs :=
   match i with
   | IDgram a fault ev =>
       match st with
-      | Some s => tail s a ev None
+      | Some s => feed_tail s a ev None
       | None =>
           match dial a fault with
-          | (Some s, d) => tail s a ev d
+          | (Some s, d) => feed_tail s a ev d
           | (None, d) => (None, mkObs ODialFail d false None)   (* CloseWithErr: entry removed *)
           end
       end
@@ -140,7 +141,7 @@ Fixpoint run (st : state) (ins : list input) : state * list obs :=
 Definition ref_step (st : state) (i : input) : state * out :=
   match i with
   | IDgram a fault _ =>
-      let fwd (s : sess) := if negb (aeqb (s_ov s) empty) then OFwd (s_ov s)
+      let fwd (s : sess) := if negb (aeqb (s_orig s) empty) then OFwd (s_ov s)
                             else if P a then OFwd a else ODrop in
       match st with
       | Some s => (Some s, fwd s)
@@ -165,3 +166,35 @@ Fixpoint ref_run (st : state) (ins : list input) : list out :=
   end.
 
 End C08.
+
+(* ---- specification functions used by the theorem statements (no cache, no hook) ---- *)
+Section C08Spec.
+Variable addr : Type.
+Variable P : addr -> bool.
+
+(* a session without hook: live = an entry with a socket exists *)
+Fixpoint spec_nohook (live : bool) (ins : list (input addr)) : list (out addr) :=
+  match ins with
+  | [] => []
+  | IDgram _ a fault _ :: t =>
+      if live then (if P a then OFwd _ a else ODrop _) :: spec_nohook true t
+      else if P a && negb fault then OFwd _ a :: spec_nohook true t
+      else ODialFail _ :: spec_nohook false t
+  | IReply _ r :: t => (if live then OReply _ r else ONone _) :: spec_nohook live t
+  | IClose _ :: t => ONone _ :: spec_nohook false t
+  end.
+
+(* a hooked session whose first destination a was rewritten to a', until it is closed *)
+Definition spec_override (a a' : addr) (i : input addr) : out addr :=
+  match i with
+  | IDgram _ _ _ _ => OFwd _ a'
+  | IReply _ _ => OReply _ a
+  | IClose _ => ONone _
+  end.
+
+Definition is_close (i : input addr) : bool := match i with IClose _ => true | _ => false end.
+
+(* the address of a client datagram is never the empty string: ParseUDPMessage rejects a zero-length address *)
+Definition wf_input (empty : addr) (i : input addr) : Prop :=
+  match i with IDgram _ a _ _ => a <> empty | _ => True end.
+End C08Spec.
